@@ -53,8 +53,19 @@ impl std::io::Read for IoMock {
         self.pos += 1;
         match e {
             Sev::Byte(b) => {
+                // like a Cursor or a driver FIFO: hand over as many consecutive bytes as the caller's buffer takes
                 buf[0] = b;
-                Ok(1)
+                let mut n = 1;
+                while n < buf.len() && self.pos < self.evs.len() {
+                    if let Sev::Byte(b2) = self.evs[self.pos] {
+                        buf[n] = b2;
+                        n += 1;
+                        self.pos += 1;
+                    } else {
+                        break;
+                    }
+                }
+                Ok(n)
             }
             Sev::WouldBlock => Err(Error::new(ErrorKind::WouldBlock, "wb")),
             Sev::Interrupted => Err(Error::new(ErrorKind::Interrupted, "int")),
@@ -135,6 +146,8 @@ fn ek<E: ByteSourceErr>(e: &E) -> &'static str {
         ErrKind::Eof => "Eof",
         ErrKind::WouldBlock => "WouldBlock",
         ErrKind::Other => "Other",
+        #[allow(unreachable_patterns)]
+        _ => "Unknown",
     }
 }
 
@@ -142,6 +155,8 @@ fn rde_str<E: ByteSourceErr>(e: &ReadDecodedError<E>) -> String {
     match e {
         ReadDecodedError::DecodeErr(d) => format!("E{}", err_str(d)),
         ReadDecodedError::IoErr(io, n) => format!("IO{}:{}", ek(io), n),
+        #[allow(unreachable_patterns)]
+        _ => "?unknown-variant".to_string(),
     }
 }
 fn rpe_str<E: ByteSourceErr + core::fmt::Debug>(e: &ReadParsedError<E>) -> String {
@@ -149,6 +164,8 @@ fn rpe_str<E: ByteSourceErr + core::fmt::Debug>(e: &ReadParsedError<E>) -> Strin
         ReadParsedError::ParseErr(p) => format!("PE{}", perr_str(p)),
         ReadParsedError::DecodeErr(d) => format!("E{}", err_str(d)),
         ReadParsedError::IoErr(io, n) => format!("IO{}:{}", ek(io), n),
+        #[allow(unreachable_patterns)]
+        _ => "?unknown-variant".to_string(),
     }
 }
 
@@ -377,10 +394,28 @@ fn run_abfrom<const N: usize>(h: &str) -> String {
         })
         .collect::<ArrayBuf<N>>()
     }));
-    if exact == loose && exact == over && exact == nohint {
+    // an iterator that is not fused: the bytes, None once, then junk - collecting stops at the first None
+    let unfused = show(catch_unwind(|| {
+        let mut i = 0usize;
+        let n = v.len();
+        std::iter::from_fn(|| {
+            i += 1;
+            if i - 1 < n {
+                Some(v[i - 1])
+            } else if i - 1 == n {
+                None
+            } else if i - 1 < n + 4 {
+                Some(0xEE)
+            } else {
+                None
+            }
+        })
+        .collect::<ArrayBuf<N>>()
+    }));
+    if exact == loose && exact == over && exact == nohint && exact == unfused {
         exact
     } else {
-        format!("MIXED:exact={},loose={},over={},nohint={}", exact, loose, over, nohint)
+        format!("MIXED:exact={},loose={},over={},nohint={},unfused={}", exact, loose, over, nohint, unfused)
     }
 }
 
